@@ -34,3 +34,54 @@ Proof.
   vm_compute. split; left; reflexivity.
 Qed.
 Print Assumptions C13_current_refuted_alternatives.
+
+(* ---- persistence of the deleted-id table (finding C13-drop-lost-on-crash): with today's DROP SERIES ([trun false]: the ids are
+   in the in-memory set and in the table's raw items when the statement is acknowledged, in a part on disk only after the table's
+   next flush) a restart right after the drop brings the dropped series back - the system model then returns a row the reference
+   does not hold. Database 1, policy 1, measurement 5, series host=a (stamp 100) and host=b (101). *)
+From OG Require Import C13.Tree.
+Definition crash_ops : list top :=
+  [TCreateDB 1; TCreateRP 1 1; TWrite 1 1 5 [(1, 1)] 10 7 100; TWrite 1 1 5 [(1, 2)] 10 8 101; TFlush 1 1;
+   TDropSeries 1 1 5 (Some (Atom 1 Eq 1)); TRestart 1 1].
+Theorem C13_drop_lost_on_crash_current_refuted :
+  exists (am : N -> N -> bool) (os : list top) (x : orow),
+    In x (tread am (trun false am t0 os) 1 1 5 None) /\ ~ In x (sread am (srun am s0 os) 1 1 5 None).
+Proof.
+  exists (fun _ _ => false), crash_ops, ([(1, 1)], 10, 7, 100). vm_compute. split.
+  - left. reflexivity.
+  - intros [H | []]. discriminate.
+Qed.
+Print Assumptions C13_drop_lost_on_crash_current_refuted.
+(* the window closes with the next flush of the table: the same history with the sync before the restart agrees with the reference *)
+Example C13_drop_survives_after_table_flush_current :
+  let am := fun (_ _ : N) => false in
+  let os := [TCreateDB 1; TCreateRP 1 1; TWrite 1 1 5 [(1, 1)] 10 7 100; TWrite 1 1 5 [(1, 2)] 10 8 101; TFlush 1 1;
+             TDropSeries 1 1 5 (Some (Atom 1 Eq 1)); TSync 1 1; TRestart 1 1] in
+  tread am (trun false am t0 os) 1 1 5 None = sread am (srun am s0 os) 1 1 5 None.
+Proof. vm_compute. reflexivity. Qed.
+
+(* ---- finding C13-drop-ignored-by-new-index: today an index created after the policy's deleted-id table exists is not wired to
+   it; a later DROP SERIES records ids that the searches of that index never consult (until the next restart) *)
+From OG Require Import C13.Wiring C13.Purge.
+Theorem C13_new_index_not_wired_current_refuted :
+  exists (os : list wop) (i : N) (b : bool),
+    In (i, b) (w_idx (wrun false w0 os)) /\ eff (wrun false w0 os) b <> w_del (wrun false w0 os).
+Proof. exists [WNewIndex 1; WDrop [5]; WNewIndex 2; WDrop [6]], 2, false. vm_compute. split; [right; left; reflexivity | discriminate]. Qed.
+Print Assumptions C13_new_index_not_wired_current_refuted.
+(* ... and the next restart wires it *)
+Example C13_new_index_wired_by_restart_current :
+  w_idx (wrun false w0 [WNewIndex 1; WDrop [5]; WNewIndex 2; WDrop [6]; WRestart]) = [(1, true); (2, true)].
+Proof. vm_compute. reflexivity. Qed.
+
+(* ---- finding C13-purge-loses-live-items: today's block-full path loses the item that did not fit (three live items of 12 bytes,
+   blocks of 30 bytes: the third is gone), and a tag->ids row is judged by its last id only *)
+Theorem C13_purge_current_refuted :
+  exists (hsz : N -> N) (del : N -> bool) (cap : N) (l : list (item N)),
+    purge_current N hsz del cap l <> purge_spec N del l.
+Proof. exists (fun h => h), (fun _ => false), 30, [(4, [1]); (4, [2]); (4, [3])]. vm_compute. discriminate. Qed.
+Theorem C13_purge_rows_current_refuted :
+  exists (del : N -> bool) (l : list (item N)),
+    purge_current N (fun h => h) del 1000 l <> purge_spec N del l /\
+    purge_current N (fun h => h) del 1000 l = [(0, [2; 1])] /\ purge_spec N del l = [(0, [1]); (0, [1])].
+Proof. exists (fun i => i =? 2), [(0, [1; 2]); (0, [2; 1])]. vm_compute. repeat split; discriminate. Qed.
+Print Assumptions C13_purge_current_refuted.
